@@ -62,7 +62,15 @@ def ob_basis(name, m, form):
         ctx.add(z3.And(zt(x) >= -1, zt(x) <= 1))
         d = {'fn': 'basis', 'name': name, 'm': m, 'form': form}
         ctx.detail = d
-        if form == 'array':
+        if form == 'intarray':
+            # an integer-typed abscissa array (e.g. pixel offsets -1, 0, 1): the polynomials are not integers
+            from pathsym.core import Z
+            ctx.ints_as_Z = True
+            xi, xi2 = ctx.int('xi', -1, 1), ctx.int('xi2', -1, 1)
+            vals = f(symnp._build_object([Z(xi.v), Z(xi2.v)]), m)
+            ctx.require(vals.shape == (m, 2), 'basis: shape (m, n)', d)
+            cols = [(R(z3.ToReal(xi.v)), [vals[k, 0] for k in range(m)]), (R(z3.ToReal(xi2.v)), [vals[k, 1] for k in range(m)])]
+        elif form == 'array':
             x2 = ctx.real('x2')
             ctx.add(z3.And(zt(x2) >= -1, zt(x2) <= 1))
             vals = f(symnp.rarray([x, x2]), m)
@@ -211,6 +219,7 @@ def obligations(tier, seed):
         obs.append(ob_basis(name, M, 'scalar'))
         obs.append(ob_basis(name, 5 if q else 8, 'array'))
         obs.append(ob_basis(name, 1, 'scalar'))
+        obs.append(ob_basis(name, 4, 'intarray'))
     obs.append(ob_basis('split', 6 if q else 10, 'scalar'))
     obs.append(ob_basis('split', 4, 'array'))
     combos = [('poly', 5, 3, 'varied', None, False), ('legendre', 5, 3, 'ones', None, False), ('chebyshev', 6, 4, 'zero', None, False),
@@ -264,7 +273,9 @@ def replay(rec):
         name, m = d['name'], d['m']
         f = {'legendre': flegendre, 'chebyshev': fchebyshev, 'poly': fpoly, 'split': fchebyshev_split}[name]
         xs = [_f(inp.get('x', 0))] + ([_f(inp.get('x2', 0))] if d['form'] == 'array' else [])
-        vals = f(np.array(xs), m) if d['form'] == 'array' else f(xs[0], m)
+        if d['form'] == 'intarray':
+            xs = [int(inp.get('xi', 0)), int(inp.get('xi2', 0))]
+        vals = f(np.array(xs), m) if d['form'] in ('array', 'intarray') else f(xs[0], m)
         if vals.shape != (m, len(xs)):
             return True
         if name == 'split':
